@@ -197,13 +197,13 @@ Proof. rewrite Nat2Z.inj_mul, Z.sqrt_square by lia. apply Nat2Z.id. Qed.
 Lemma fd_op_2d order N b :
   option_map fst (fd_op order (NTup2 N N) b None) = option_map (stack2d N) (fd_matrix order b N).
 Proof.
-  unfold fd_op. rewrite Nat.eqb_refl. cbn [negb]. destruct (fd_matrix order b N); reflexivity.
+  unfold fd_op, fd_op_gen. rewrite Nat.eqb_refl. cbn [negb]. destruct (fd_matrix order b N); reflexivity.
 Qed.
 
 Lemma diff_of_order_2d order N b : (order <= 2)%nat ->
   diff_of_order order (NTup2 N N) b = option_map (stack2d N) (fd_matrix (eff_order order) (eff_bc order b) N).
 Proof.
-  intros H. destruct order as [|[|[|o]]]; [| | |lia]; cbn [diff_of_order eff_order eff_bc]; apply fd_op_2d.
+  intros H. destruct order as [|[|[|o]]]; [| | |lia]; unfold diff_of_order; cbn [diff_of_order_gen eff_order eff_bc]; apply fd_op_2d.
 Qed.
 
 Lemma gmrf_init_2d_inv N b order g : gmrf_init 2 (N * N) b order = Some g ->
@@ -212,7 +212,7 @@ Lemma gmrf_init_2d_inv N b order g : gmrf_init 2 (N * N) b order = Some g ->
     g_prec g = gram (N * N) (stack2d N D) /\ g_diff g = stack2d N D /\
     ((b = Zero /\ g_rank g = (N * N)%nat) \/ ((b = Periodic \/ b = Neumann) /\ g_rank g = (N * N - 1)%nat)).
 Proof.
-  unfold gmrf_init, prec_op. cbn [mrf_nodes]. rewrite isqrt_sq. cbn [nodes_dim].
+  unfold gmrf_init, gmrf_init_gen, prec_op_gen. fold diff_of_order. cbn [mrf_nodes]. rewrite isqrt_sq. cbn [nodes_dim].
   destruct (N * N =? 1)%nat eqn:E1; [discriminate|].
   destruct (le_lt_dec order 2) as [Ho|Ho].
   - rewrite diff_of_order_2d by exact Ho.
@@ -220,7 +220,7 @@ Proof.
     cbn [option_map]. intros H. exists D.
     destruct b; try discriminate; injection H as <-; cbn [g_prec g_diff g_rank];
       repeat split; try lia; auto.
-  - destruct order as [|[|[|o]]]; try lia. cbn [diff_of_order]. discriminate.
+  - destruct order as [|[|[|o]]]; try lia. unfold diff_of_order. cbn [diff_of_order_gen]. discriminate.
 Qed.
 
 Lemma eye_wf N : wf_mat N (eye N).
